@@ -92,7 +92,7 @@ def parseRes (s : String) : Option Res :=
 def parseResults (s : String) : Option (List Res × Bool) :=
   let toks := (s.splitOn ",").filter (· ≠ "")
   let ret := toks.getLast? = some "ret"
-  let toks := if ret then toks.dropLast else toks
+  let toks := if ret || toks.getLast? = some "gx" then toks.dropLast else toks
   (toks.mapM parseRes).map (·, ret)
 
 def parseSRet (s : String) : Option Spec.SRet :=
@@ -111,6 +111,12 @@ def hsteps (n : Nat) (s : St) (pinned : Bool := false) : St :=
   iter n (fun s => if s.hst = .running then
     ((if pinned then stepPinned reasonBytes s .h else hstep s)).getD s else s) s
 
+/-- handler steps of a handler whose goroutine ends by `runtime.Goexit` after its script: it performs its actions but never
+takes the return step (`close(done)` is not reached, nothing is sent on `panicChan`) -/
+def hstepsStall (n : Nat) (s : St) (pinned : Bool := false) : St :=
+  iter n (fun s => if s.hst = .running && decide (s.hpc < s.script.length) then
+    ((if pinned then stepPinned reasonBytes s .h else hstep s)).getD s else s) s
+
 def stepD (s : St) (l : Label) : St := (step reasonBytes s l).getD s
 
 structure RestOut where
@@ -122,17 +128,19 @@ structure RestOut where
   fin : String := "same"
   branch : String := ""
   pinned : Bool := false
+  goexit : Bool := false
 
 def RestOut.render (o : RestOut) (withFin : Bool) : String :=
-  s!"sret={o.sret} atret={showView (Spec.ofRec o.atRet)} results={showResults o.log o.returned} final={showView (Spec.ofRec o.final)}"
+  s!"sret={o.sret} atret={showView (Spec.ofRec o.atRet)} results={showResults o.log o.returned}{if o.goexit then (if o.log.isEmpty then "gx" else ",gx") else ""} final={showView (Spec.ofRec o.final)}"
     ++ (if withFin then s!" fin={o.fin} leak=0" else "")
 
 /-- wrapped path: `j` handler steps, then (if the handler is still running) the expiry and the timeout
 branch, else the done / panic branch; then the rest of the handler. -/
-def simWrapped (script : List Act) (kind : Option Kind) (j : Nat) (pinned : Bool := false) : RestOut :=
+def simWrapped (script : List Act) (kind : Option Kind) (j : Nat) (pinned : Bool := false) (stall : Bool := false) : RestOut :=
   let s0 := St.init script
   let n := script.length + 1
-  let s1 := hsteps (match kind with | none => n | some _ => j) s0 pinned
+  let hs : Nat → St → Bool → St := fun n s p => if stall then hstepsStall n s p else hsteps n s p
+  let s1 := hs (match kind with | none => n | some _ => j) s0 pinned
   let s2 : St × String × String :=
     match s1.hst with
     | .running =>
@@ -149,9 +157,9 @@ def simWrapped (script : List Act) (kind : Option Kind) (j : Nat) (pinned : Bool
       let s := stepD s1 .mPanic
       let s := match kind with | some k => stepD s (.env k) | none => s
       (s, (match s.pc with | .panicked v => s!"panic:{v}" | _ => "?"), "panic-branch")
-  let s3 := hsteps n s2.1 pinned
+  let s3 := hs n s2.1 pinned
   { sret := s2.2.1, atRet := s2.1.w, final := s3.w, log := s3.log, returned := s3.hst = .finished, branch := s2.2.2,
-    pinned := pinned }
+    pinned := pinned, goexit := stall && s3.hst = .running }
 
 /-- unwrapped path (exempt request or duration ≤ 0): the handler runs on ServeHTTP's goroutine, straight on
 the real writer; the expiry has no effect. -/
@@ -170,8 +178,8 @@ def simDirect (script : List Act) (kind : Option Kind) (j : Nat) : RestOut :=
   { sret := if endedEarly then how else "blocked", atRet := a.1, final := b.1, log := b.2.1,
     returned := pan.isNone, fin := if endedEarly then "same" else how, branch := "direct" }
 
-def simRest (script : List Act) (kind : Option Kind) (j : Nat) (hdr : ReqHdr) (dur : Int) (pinned : Bool := false) : RestOut :=
-  if restWraps dur hdr then simWrapped script kind j pinned else simDirect script kind j
+def simRest (script : List Act) (kind : Option Kind) (j : Nat) (hdr : ReqHdr) (dur : Int) (pinned : Bool := false) (stall : Bool := false) : RestOut :=
+  if restWraps dur hdr then simWrapped script kind j pinned stall else simDirect script kind j
 
 /-! ### deadlines -/
 
@@ -189,8 +197,11 @@ def parseParent (s : String) : Option Deadline :=
 def obsOf (l : Line) (k : String) : String := kvStr l.obs k "?"
 
 /-- `eng`: the engine of the section for `erest` lines (duration of the route's middleware from the engine model) -/
-def runRestLine (r : Report) (sec : Nat) (l : Line) (gated : Bool) (eng : Option Eng := none) : Report := Id.run do
+def runRestLine (r : Report) (sec : Nat) (l0 : Line) (gated : Bool) (eng : Option Eng := none) : Report := Id.run do
   let mut r := r
+  -- `g`: the handler's goroutine ends by runtime.Goexit there; the model's handler performs the actions before it and stalls
+  let goexit := l0.op.contains "g"
+  let l : Line := { l0 with op := l0.op.takeWhile (· ≠ "g") }
   let parsed : Option (Option Kind × Nat × ReqHdr × Int × List Act × Bool) :=
     match eng with
     | some e =>
@@ -221,12 +232,15 @@ def runRestLine (r : Report) (sec : Nat) (l : Line) (gated : Bool) (eng : Option
       if gated && !timer then [k]
       else if gated then (List.range (min k n + 1)).reverse
       else List.range (n + 1)
-    let candsOf (pinned : Bool) : List RestOut := js.map (fun j => simRest script kind j hdr dur pinned)
+    let candsOf (pinned : Bool) : List RestOut := js.map (fun j => simRest script kind j hdr dur pinned goexit)
     let cands : List RestOut := candsOf false ++ (if Spec.hasFlush script && wrapped then candsOf true else [])
     let pfx := if eng.isSome then "eng-" else if gated then "rest-" else "race-"
     match cands.find? (fun c => c.render gated = impl) with
     | some c =>
       r := r.addCover (pfx ++ c.branch)
+      if goexit then r := r.addCover (pfx ++ "handler-Goexit-" ++ c.branch)
+      if c.log.any (fun x => match x with | .panicked v => decide (100 ≤ v ∧ v < 200) | _ => false) then
+        r := r.addCover (pfx ++ "panic-with-error-value-" ++ c.branch)
       if timer then r := r.addCover (pfx ++ "real-timer")
       let panicked := c.log.any (fun x => match x with | .panicked _ => true | _ => false)
       if panicked && c.branch = "timeout-branch" then r := r.addCover "panic-after-timeout-branch-swallowed"
@@ -254,8 +268,13 @@ def runRestLine (r : Report) (sec : Nat) (l : Line) (gated : Bool) (eng : Option
                               firedLo := if gated && !timer then k else 0, firedHi := if gated then k else n,
                               gated := gated && !timer,
                               sret := sret, atRet := atRet, final := final, results := results }
+        if goexit && kind.isNone then
+          r := r.mismatch sec l.idx "bad-op (a handler that ends by Goexit needs an expiry)" (joinSp l0.op)
+        -- a handler whose goroutine ended by Goexit never completed: only the timeout result may reach the client
+        if goexit && sret = .done && !Spec.hasFlush script && (match kind with | some k => atRet.code ≠ statusOf k | none => false) then
+          r := r.violation sec l.idx s!"the handler's goroutine ended by runtime.Goexit without returning, yet the client got a response that is not the timeout result: op=[{joinSp l0.op}] impl=[{impl}]"
         for e in Spec.check reasonBytes o do
-          r := r.violation sec l.idx s!"{e}: op=[{joinSp l.op}] impl=[{impl}]"
+          r := r.violation sec l.idx s!"{e}: op=[{joinSp l0.op}] impl=[{impl}]"
           if e.startsWith "[known-class " then r := r.addCover ("known-" ++ (((e.splitOn "]").headD "").splitOn " ").getLastD "")
         if gated && obsOf l "leak" ≠ "0" then
           r := r.violation sec l.idx s!"a goroutine of the wrapper is left behind after the request and the work have ended (leak): op=[{joinSp l.op}] impl=[{impl}]"
@@ -264,7 +283,10 @@ def runRestLine (r : Report) (sec : Nat) (l : Line) (gated : Bool) (eng : Option
         if results.any (· == .errTimeout) then r := r.addCover "saw-ErrHandlerTimeout"
         if Spec.hasFlush script && atRet = Spec.completeF script && Spec.completes script false then
           r := r.addCover "flush-complete-streamed-result"
-      | _, _, _, _ => r := r.mismatch sec l.idx "parsable-observation" impl
+      | _, _, _, _ =>
+        r := r.mismatch sec l.idx "parsable-observation" impl
+        if (obsOf l "sret").startsWith "panic:" && (parseSRet (obsOf l "sret")).isNone then
+          r := r.violation sec l.idx s!"re-raised panic is not the work's panic (the value reaching the caller's goroutine is not the value the handler panicked with): op=[{joinSp l0.op}] impl=[{impl}]"
     else
       -- exempt request (websocket upgrade / event stream) or TimeoutHandler(duration <= 0) = no timeout: nothing may cut it off
       let what := if dur > 0 then "exempt request (websocket/event-stream)" else "TimeoutHandler(duration <= 0) is no timeout at all, but the request"
